@@ -57,7 +57,7 @@ def geometry(obj):
 
 def run(chk):
     rng = chk.rng
-    ks = [-10, -3, 1, 7] if chk.tier == "quick" else list(range(-10, 11))
+    ks = [-10, -3, 0, 1, 7] if chk.tier == "quick" else list(range(-10, 11))      # (k = 0: assigning the current value changes nothing)
     chk.notes["rule"] = ("every settable property (reflection) of every shape class x positive targets cur*2^k x general-position off-origin base shapes "
                          "(also tilted polygons); bad targets 0, -1, nan; non-trivial = every (class, property, target) triple on an off-origin shape")
     for cls in Z.CLASSES:
